@@ -47,12 +47,12 @@ ASSUMPTIONS = [
     "other Python / Cython versions are outside",
 ]
 BOUNDS = {
-    "quick": "programs: every first operation x one further operation over {a,b,c,n.x,l0} with the rich expression family (abs/neg/mul/add/sub/call and nested builtin+binary shapes) ending with a fresh assignment to every location; "
+    "quick": "programs: every first operation x one further operation over {a,b,c,n.x,l0} with the rich expression family (abs/neg/mul/add/sub/call and nested builtin+binary shapes) ending with a fresh assignment to every location; programs starting with a definition through a second top-level container that customises reads or writes (defaultdict with a missing key, dict / list subclasses overriding __getitem__ / __setitem__, an object with __getattr__ / __setattr__, AttrDict), side log of the container methods in the transcript; "
              "both builds on every program; all set orders (NDSet) on programs of <=2 operations; compiled build seeds 0..7 on a 40-program concrete corpus",
     "thorough": "programs of 3 operations, seeds 0..31",
 }
 OUTSIDE = "other interpreter versions; universes with false ordering cycles"
-REQUIRED_CLASSES = ["build_pairs_equal", "orders_equal", "seed_processes"]
+REQUIRED_CLASSES = ["build_pairs_equal", "orders_equal", "seed_processes", "customised_containers"]
 PROFILE_CASES = 0
 TASKS_PER_CHILD = 20
 LOCS = ["a", "b", "c", "n.x", "l0"]
@@ -84,6 +84,8 @@ def list_ops(defs, locs):
     for t in locs[:2]:
         for kind in NPKINDS:
             ops.append(("npkey", t, kind))
+    for kind in CONTKINDS:
+        ops.append(("cont", "a", kind))
     return ops
 
 
@@ -130,6 +132,119 @@ def _npkey(st, op):
     st.ex.notes["numpy_keys"] = st.ex.notes.get("numpy_keys", 0) + 1
 
 
+CONTKINDS = ("dd_read_missing", "dictsub_read", "dictsub_write", "listsub_read", "listsub_write", "objsub_getattr", "objsub_setattr", "attrdict_read")
+
+
+class _Side:
+    """side log of the customised container methods (part of the transcript)"""
+    log = None
+
+
+class UpDict(dict):
+    """dict subclass customising reads and writes"""
+
+    def __getitem__(self, k):
+        _Side.log.append(("get", k))
+        return dict.__getitem__(self, str(k).lower())
+
+    def __setitem__(self, k, v):
+        _Side.log.append(("set", k))
+        dict.__setitem__(self, str(k).lower(), v)
+
+
+class WrapList(list):
+    """list subclass whose indices wrap around"""
+
+    def __getitem__(self, i):
+        _Side.log.append(("get", i))
+        return list.__getitem__(self, i % len(self))
+
+    def __setitem__(self, i, v):
+        _Side.log.append(("set", i))
+        list.__setitem__(self, i % len(self), v)
+
+
+class FallbackObj:
+    """object answering unknown attributes, logging writes"""
+
+    def __init__(self, **kw):
+        self.__dict__.update(kw)
+
+    def __getattr__(self, k):
+        if k.startswith("_"):
+            raise AttributeError(k)
+        _Side.log.append(("getattr", k))
+        return 7
+
+    def __setattr__(self, k, v):
+        _Side.log.append(("setattr", k))
+        object.__setattr__(self, k, v)
+
+
+def _cont(st, op):
+    """a second top-level container of a kind that customises reads or writes (what MadxEnv registers for its
+    variables is a defaultdict): both builds must go through the container's own methods"""
+    import collections
+    t, kind = op[1], op[2]
+    st.hist.append(f"container {kind} <-> {t}")
+    _Side.log = st.side = []
+    src = U.getref(st.r, t)
+    sv = U.getval(st.d, t)
+    m = st.m
+    if kind == "dd_read_missing":
+        c = collections.defaultdict(lambda: 0)
+        v = m.ref(c, "v")
+        v["out"] = v["never_assigned"] + src
+    elif kind == "dictsub_read":
+        c = UpDict()
+        dict.__setitem__(c, "k", sv)
+        v = m.ref(c, "v")
+        st.r["c" if t != "c" else "b"] = v["K"] + 1
+    elif kind == "dictsub_write":
+        c = UpDict()
+        v = m.ref(c, "v")
+        v["OUT"] = src * 2
+    elif kind == "listsub_read":
+        c = WrapList([sv, 5])
+        v = m.ref(c, "v")
+        st.r["c" if t != "c" else "b"] = v[3] + 1
+    elif kind == "listsub_write":
+        c = WrapList([0, 0])
+        v = m.ref(c, "v")
+        v[5] = src * 2
+    elif kind == "objsub_getattr":
+        c = FallbackObj(x=sv)
+        v = m.ref(c, "v")
+        st.r["c" if t != "c" else "b"] = v.x + v.unknown
+    elif kind == "objsub_setattr":
+        c = FallbackObj()
+        v = m.ref(c, "v")
+        v.out = src * 2
+    elif kind == "attrdict_read":
+        c = st.xd.utils.AttrDict(x=sv)
+        v = m.ref(c, "v")
+        st.r["c" if t != "c" else "b"] = v.x + v["x"]
+    else:
+        raise ValueError(kind)
+    st.extra = c
+    # the source changes: the definition above follows it through the customised container
+    U.assign(st.r, t, st.fresh())
+    st.ex.notes["customised_containers"] = st.ex.notes.get("customised_containers", 0) + 1
+
+
+def _extra_tx(st):
+    c = getattr(st, "extra", None)
+    if c is None:
+        return None
+    if isinstance(c, dict):
+        body = {repr(k): tx(v) for k, v in dict.items(c)}
+    elif isinstance(c, list):
+        body = [tx(v) for v in list.__iter__(c)]
+    else:
+        body = {k: tx(v) for k, v in sorted(vars(c).items())}
+    return {"kind": type(c).__name__, "contents": body, "side": [list(map(str, x)) for x in getattr(st, "side", [])]}
+
+
 def _weird(st, op):
     t, kind = op[1], op[2]
     st.hist.append(f"weird {kind} -> {t}")
@@ -168,7 +283,7 @@ def run_case(ex, case):
             ops = [o for o in ops if o[0] == "expr"]
         if k > 0:
             ops = [o for o in ops if o[0] != "weird"] if case.get("first_kind") != "weird" else ops
-            ops = [o for o in ops if o[0] != "npkey"]
+            ops = [o for o in ops if o[0] not in ("npkey", "cont")]
             # no second definition / in-place operation on a slot already defined through a numpy key (alias)
             ops = [o for o in ops if o[1] not in getattr(st, "np_defined", ())]
             # ... and no read of a top-level location through the plain spelling while it is defined through
@@ -186,6 +301,9 @@ def run_case(ex, case):
                 continue
             if ops[i][0] == "npkey":
                 _npkey(st, ops[i])
+                continue
+            if ops[i][0] == "cont":
+                _cont(st, ops[i])
                 continue
             st.apply(ops[i])
         except (Abort, Inconclusive):
@@ -208,6 +326,7 @@ def run_case(ex, case):
                 out["exc"] = f"{type(e).__name__} on final assignment to {L}"
                 break
     out["contents"] = {L: tx(U.getval(st.d, L)) for L in U.ALL_LOCS}
+    out["extra_container"] = _extra_tx(st)
     out["dump"] = sorted(map(list, st.m.dump()))
     out["deps"] = {str(t.taskid): sorted(str(x) for x in t.dependencies) for t in st.m.tasks.values()}
     out["texts"] = sorted(f"{t}" for t in st.m.tasks.values())
@@ -351,6 +470,14 @@ def main(tier, seed, replay, procs):
             by.setdefault(hist, {}).setdefault(c["build"], []).append(text)
     pairs = orders = 0
     for k, d in by.items():
+        if ("pure" in d) != ("compiled" in d):
+            # the same decision tree is run in both builds: a program that exists in one build only means that
+            # the other build stopped earlier (an exception) or went on where this one stopped
+            have = "pure" if "pure" in d else "compiled"
+            j = json.loads(d[have][0])
+            viol.append({"what": f"program {j['hist']} (outcome: {j['exc'] or 'ran to its end'}) exists only in the {have} build: the other build took another course on the same operations",
+                         "program": j["hist"], have: {"exc": j["exc"]}})
+            continue
         if "pure" in d and "compiled" in d:
             pairs += 1
             a, b = d["pure"][0], d["compiled"][0]
